@@ -315,7 +315,7 @@ func (e *env) randomClient(seed uint64, idx int) {
 		base = 0xFFFFFFFF - 1023 - uint32(rnd.Intn(12)) // the counter wraps inside the scenario
 		e.r.Hit("counter-near-wrap")
 	}
-	s := e.open(fmt.Sprintf("random-client %d %d", seed, idx), base, 20*time.Second, false, nil)
+	s := e.open(fmt.Sprintf("random-client %d %d", seed, idx), base, 60*time.Second, false, nil)
 	if s == nil {
 		return
 	}
@@ -347,7 +347,7 @@ func (e *env) randomClient(seed uint64, idx int) {
 		go func(k int) {
 			defer wg.Done()
 			for _, c := range chunks {
-				if err := s.sc.SendRequestWithTimeout(context.Background(), bigReq(c, byte(k)), nil, 20*time.Second, nil); err != nil {
+				if err := s.sc.SendRequestWithTimeout(context.Background(), bigReq(c, byte(k)), nil, 60*time.Second, nil); err != nil {
 					errs.Add(1)
 				}
 			}
@@ -368,7 +368,7 @@ func (e *env) randomClient(seed uint64, idx int) {
 	select {
 	case <-done:
 	case <-time.After(60 * time.Second):
-		e.r.InfraError = s.name + ": senders did not finish"
+		e.blocked(s.name + ": senders did not finish")
 	}
 	evs := s.ctl.Events()
 	want := 0
@@ -377,8 +377,8 @@ func (e *env) randomClient(seed uint64, idx int) {
 			want++
 		}
 	}
-	if !s.p.waitWire(want, 20*time.Second) && e.r.InfraError == "" {
-		e.r.InfraError = s.name + ": peer did not receive all chunks"
+	if !s.p.waitWire(want, 60*time.Second) && e.r.InfraError == "" {
+		e.blocked(s.name + ": peer did not receive all chunks")
 	}
 	uasc.VerifSetHook(nil)
 	if errs.Load() > 0 && e.r.InfraError == "" {
@@ -411,7 +411,7 @@ func (e *env) serverFixed(seed uint64, idx int) {
 	if rnd.Chance(30) {
 		base = 0xFFFFFFFF - 1023 - uint32(rnd.Intn(12))
 	}
-	s := e.open(fmt.Sprintf("server-fixed %d %d", seed, idx), base, 20*time.Second, true, nil)
+	s := e.open(fmt.Sprintf("server-fixed %d %d", seed, idx), base, 60*time.Second, true, nil)
 	if s == nil {
 		return
 	}
@@ -445,8 +445,8 @@ func (e *env) serverFixed(seed uint64, idx int) {
 			want++
 		}
 	}
-	if !s.p.waitWire(want, 20*time.Second) {
-		e.r.InfraError = s.name + ": peer did not receive all chunks"
+	if !s.p.waitWire(want, 60*time.Second) {
+		e.blocked(s.name + ": peer did not receive all chunks")
 	}
 	uasc.VerifSetHook(nil)
 	if errs.Load() > 0 && e.r.InfraError == "" {
@@ -475,34 +475,34 @@ func small(tag byte) *ua.WriteRequest { return bigReq(1, tag) }
 
 // forcedStale: a sender is held between the gate and pendingReq.Add while a whole renewal runs.
 func (e *env) forcedStale() {
-	s := e.open("forced-stale-counter", 100, 20*time.Second, false, nil)
+	s := e.open("forced-stale-counter", 100, 60*time.Second, false, nil)
 	if s == nil {
 		return
 	}
 	defer s.stop()
 	// one ordinary message first
-	s.sc.SendRequestWithTimeout(context.Background(), small(1), nil, 20*time.Second, nil)
+	s.sc.SendRequestWithTimeout(context.Background(), small(1), nil, 60*time.Second, nil)
 	hold := s.ctl.BlockAt(func(ev *h.SendEv) bool { return ev.Name == "send.afterActive" })
 	sdone := make(chan error, 1)
-	go func() { sdone <- s.sc.SendRequestWithTimeout(context.Background(), small(2), nil, 20*time.Second, nil) }()
-	if hold.WaitReached(20*time.Second) == nil {
-		e.r.InfraError = s.name + ": sender did not reach send.afterActive"
+	go func() { sdone <- s.sc.SendRequestWithTimeout(context.Background(), small(2), nil, 60*time.Second, nil) }()
+	if hold.WaitReached(60*time.Second) == nil {
+		e.blocked(s.name + ": sender did not reach send.afterActive")
 		return
 	}
 	if err := s.sc.Renew(context.Background()); err != nil {
-		e.r.InfraError = s.name + ": renew failed: " + err.Error()
+		e.blocked(s.name + ": renew failed: " + err.Error())
 		return
 	}
 	hold.Release()
 	select {
 	case <-sdone:
-	case <-time.After(20 * time.Second):
-		e.r.InfraError = s.name + ": held sender did not finish"
+	case <-time.After(60 * time.Second):
+		e.blocked(s.name + ": held sender did not finish")
 		return
 	}
 	// a message under the new token
-	s.sc.SendRequestWithTimeout(context.Background(), small(3), nil, 20*time.Second, nil)
-	s.p.waitWire(4, 20*time.Second)
+	s.sc.SendRequestWithTimeout(context.Background(), small(3), nil, 60*time.Second, nil)
+	s.p.waitWire(4, 60*time.Second)
 	evs := s.ctl.Events()
 	uasc.VerifSetHook(nil)
 	e.r.Hit("scenario:forced-stale")
@@ -516,14 +516,14 @@ func (e *env) forcedFailedRenewal() {
 		return
 	}
 	defer s.stop()
-	s.sc.SendRequestWithTimeout(context.Background(), small(1), nil, 20*time.Second, nil)
+	s.sc.SendRequestWithTimeout(context.Background(), small(1), nil, 60*time.Second, nil)
 	err := s.sc.Renew(context.Background())
 	if err == nil {
-		e.r.InfraError = s.name + ": renewal without an answer succeeded"
+		e.blocked(s.name + ": renewal without an answer succeeded")
 		return
 	}
-	s.sc.SendRequestWithTimeout(context.Background(), small(2), nil, 20*time.Second, nil)
-	s.p.waitWire(3, 20*time.Second)
+	s.sc.SendRequestWithTimeout(context.Background(), small(2), nil, 60*time.Second, nil)
+	s.p.waitWire(3, 60*time.Second)
 	evs := s.ctl.Events()
 	uasc.VerifSetHook(nil)
 	e.r.Hit("scenario:forced-failed-renewal")
@@ -533,20 +533,20 @@ func (e *env) forcedFailedRenewal() {
 // forcedAbort: (1) a request whose context is already done must not consume a number (repaired);
 // (2) a request whose context ends after its number was drawn (held at send.numbered) still burns it.
 func (e *env) forcedAbort() {
-	s := e.open("forced-aborted-send", 300, 20*time.Second, false, nil)
+	s := e.open("forced-aborted-send", 300, 60*time.Second, false, nil)
 	if s == nil {
 		return
 	}
 	defer s.stop()
-	s.sc.SendRequestWithTimeout(context.Background(), small(1), nil, 20*time.Second, nil)
+	s.sc.SendRequestWithTimeout(context.Background(), small(1), nil, 60*time.Second, nil)
 	ctx, cancel := context.WithCancel(context.Background())
 	cancel()
-	if err := s.sc.SendRequestWithTimeout(ctx, small(2), nil, 20*time.Second, nil); err == nil {
-		e.r.InfraError = s.name + ": request with a cancelled context succeeded"
+	if err := s.sc.SendRequestWithTimeout(ctx, small(2), nil, 60*time.Second, nil); err == nil {
+		e.blocked(s.name + ": request with a cancelled context succeeded")
 		return
 	}
-	s.sc.SendRequestWithTimeout(context.Background(), small(3), nil, 20*time.Second, nil)
-	s.p.waitWire(2, 20*time.Second)
+	s.sc.SendRequestWithTimeout(context.Background(), small(3), nil, 60*time.Second, nil)
+	s.p.waitWire(2, 60*time.Second)
 	if w, _ := s.p.snapshot(); len(w) == 2 && w[1].Seq != h.NextSeq(w[0].Seq) {
 		e.r.Fail(s.name+" (context done before the call)", "", fmt.Sprintf("a request whose context was already done consumed a sequence number: wire %s, %s", w[0], w[1]))
 	} else {
@@ -557,9 +557,9 @@ func (e *env) forcedAbort() {
 	ctx2, cancel2 := context.WithCancel(context.Background())
 	defer cancel2()
 	done := make(chan error, 1)
-	go func() { done <- s.sc.SendRequestWithTimeout(ctx2, small(4), nil, 20*time.Second, nil) }()
-	if hold.WaitReached(20*time.Second) == nil {
-		e.r.InfraError = s.name + ": sender did not reach send.numbered"
+	go func() { done <- s.sc.SendRequestWithTimeout(ctx2, small(4), nil, 60*time.Second, nil) }()
+	if hold.WaitReached(60*time.Second) == nil {
+		e.blocked(s.name + ": sender did not reach send.numbered")
 		return
 	}
 	cancel2()
@@ -569,12 +569,12 @@ func (e *env) forcedAbort() {
 		if err == nil {
 			e.r.Notes = append(e.r.Notes, s.name+": the held request was sent although its context ended")
 		}
-	case <-time.After(20 * time.Second):
-		e.r.InfraError = s.name + ": held sender did not return"
+	case <-time.After(60 * time.Second):
+		e.blocked(s.name + ": held sender did not return")
 		return
 	}
-	s.sc.SendRequestWithTimeout(context.Background(), small(5), nil, 20*time.Second, nil)
-	s.p.waitWire(3, 20*time.Second)
+	s.sc.SendRequestWithTimeout(context.Background(), small(5), nil, 60*time.Second, nil)
+	s.p.waitWire(3, 60*time.Second)
 	evs := s.ctl.Events()
 	uasc.VerifSetHook(nil)
 	e.r.Hit("scenario:forced-aborted-send")
@@ -585,18 +585,18 @@ func (e *env) forcedAbort() {
 // block; the second renewal waits for the old instance's mutex; when the first one finishes its unlock()
 // opens the gate although the second renewal is still running, and the second one renews the superseded token.
 func (e *env) forcedOverlap() {
-	s := e.open("forced-overlapping-renewals", 400, 20*time.Second, false, func(*h.PeerChunk) bool { return false })
+	s := e.open("forced-overlapping-renewals", 400, 60*time.Second, false, func(*h.PeerChunk) bool { return false })
 	if s == nil {
 		return
 	}
 	defer s.stop()
 	gate := s.sc.VerifReqLocker()
-	s.sc.SendRequestWithTimeout(context.Background(), small(1), nil, 20*time.Second, nil)
+	s.sc.SendRequestWithTimeout(context.Background(), small(1), nil, 60*time.Second, nil)
 	var panicked atomic.Value
 	r1 := make(chan error, 1)
 	go func() { r1 <- renewRecover(s.sc, &panicked) }()
 	waitOPN := func(n int) bool {
-		dl := time.Now().Add(20 * time.Second)
+		dl := time.Now().Add(60 * time.Second)
 		for time.Now().Before(dl) {
 			if len(s.p.opnRequests()) >= n {
 				return true
@@ -606,7 +606,7 @@ func (e *env) forcedOverlap() {
 		return false
 	}
 	if !waitOPN(1) {
-		e.r.InfraError = s.name + ": first OPN request not seen"
+		e.blocked(s.name + ": first OPN request not seen")
 		return
 	}
 	r2 := make(chan error, 1)
@@ -620,44 +620,44 @@ func (e *env) forcedOverlap() {
 		}
 		return n
 	}
-	for dl := time.Now().Add(20 * time.Second); nAfterWait() < 2; {
+	for dl := time.Now().Add(60 * time.Second); nAfterWait() < 2; {
 		if time.Now().After(dl) {
-			e.r.InfraError = s.name + ": second renewal did not get past pendingReq.Wait"
+			e.blocked(s.name + ": second renewal did not get past pendingReq.Wait")
 			return
 		}
 		time.Sleep(time.Millisecond)
 	}
 	sd := make(chan error, 1)
-	go func() { sd <- s.sc.SendRequestWithTimeout(context.Background(), small(2), nil, 20*time.Second, nil) }()
-	if s.ctl.WaitEvent(20*time.Second, func(ev *h.SendEv) bool { return ev.Name == "cl.block" && ev.Arg(0) == gate }) == nil {
-		e.r.InfraError = s.name + ": the request did not block at the gate"
+	go func() { sd <- s.sc.SendRequestWithTimeout(context.Background(), small(2), nil, 60*time.Second, nil) }()
+	if s.ctl.WaitEvent(60*time.Second, func(ev *h.SendEv) bool { return ev.Name == "cl.block" && ev.Arg(0) == gate }) == nil {
+		e.blocked(s.name + ": the request did not block at the gate")
 		return
 	}
 	s.p.reply(s.p.opnRequests()[0]) // the first renewal completes: its unlock opens the gate
 	select {
 	case <-r1:
-	case <-time.After(20 * time.Second):
-		e.r.InfraError = s.name + ": first renewal did not return"
+	case <-time.After(60 * time.Second):
+		e.blocked(s.name + ": first renewal did not return")
 		return
 	}
 	if !waitOPN(2) {
-		e.r.InfraError = s.name + ": second OPN request not seen"
+		e.blocked(s.name + ": second OPN request not seen")
 		return
 	}
 	select {
 	case <-sd: // the request got through while the second renewal was still waiting for its answer
-	case <-time.After(20 * time.Second):
+	case <-time.After(60 * time.Second):
 		e.r.Notes = append(e.r.Notes, s.name+": the request stayed blocked during the second renewal")
 	}
 	s.p.reply(s.p.opnRequests()[1])
 	select {
 	case <-r2:
-	case <-time.After(20 * time.Second):
-		e.r.InfraError = s.name + ": second renewal did not return"
+	case <-time.After(60 * time.Second):
+		e.blocked(s.name + ": second renewal did not return")
 		return
 	}
-	s.sc.SendRequestWithTimeout(context.Background(), small(3), nil, 20*time.Second, nil)
-	s.p.waitWire(5, 20*time.Second)
+	s.sc.SendRequestWithTimeout(context.Background(), small(3), nil, 60*time.Second, nil)
+	s.p.waitWire(5, 60*time.Second)
 	evs := s.ctl.Events()
 	uasc.VerifSetHook(nil)
 	e.r.Hit("scenario:forced-overlapping-renewals")
@@ -732,19 +732,19 @@ func (e *env) forcedOverlap() {
 // CloseSecureChannelRequest then passes the gate, reads the old active instance and is numbered from the
 // stale counter once the renewal has finished (the stale-counter finding through another door).
 func (e *env) forcedClose() {
-	s := e.open("forced-close-during-renewal", 500, 20*time.Second, false, func(*h.PeerChunk) bool { return false })
+	s := e.open("forced-close-during-renewal", 500, 60*time.Second, false, func(*h.PeerChunk) bool { return false })
 	if s == nil {
 		return
 	}
 	defer s.stop()
 	gate := s.sc.VerifReqLocker()
-	s.sc.SendRequestWithTimeout(context.Background(), small(1), nil, 20*time.Second, nil)
+	s.sc.SendRequestWithTimeout(context.Background(), small(1), nil, 60*time.Second, nil)
 	var panicked atomic.Value
 	r1 := make(chan error, 1)
 	go func() { r1 <- renewRecover(s.sc, &panicked) }()
-	for dl := time.Now().Add(20 * time.Second); len(s.p.opnRequests()) < 1; {
+	for dl := time.Now().Add(60 * time.Second); len(s.p.opnRequests()) < 1; {
 		if time.Now().After(dl) {
-			e.r.InfraError = s.name + ": OPN request not seen"
+			e.blocked(s.name + ": OPN request not seen")
 			return
 		}
 		time.Sleep(time.Millisecond)
@@ -753,24 +753,24 @@ func (e *env) forcedClose() {
 	n0 := len(s.ctl.Events())
 	go func() { cd <- s.sc.Close() }()
 	// the CLO request is past the gate once it announces that it waits for the instance mutex
-	if s.ctl.WaitEvent(20*time.Second, func(ev *h.SendEv) bool { return ev.Name == "send.beforeLock" && ev.I >= n0 }) == nil {
-		e.r.InfraError = s.name + ": Close() did not get to send its request"
+	if s.ctl.WaitEvent(60*time.Second, func(ev *h.SendEv) bool { return ev.Name == "send.beforeLock" && ev.I >= n0 }) == nil {
+		e.blocked(s.name + ": Close() did not get to send its request")
 		return
 	}
 	s.p.reply(s.p.opnRequests()[0])
 	select {
 	case <-r1:
-	case <-time.After(20 * time.Second):
-		e.r.InfraError = s.name + ": renewal did not return"
+	case <-time.After(60 * time.Second):
+		e.blocked(s.name + ": renewal did not return")
 		return
 	}
 	select {
 	case <-cd:
-	case <-time.After(20 * time.Second):
-		e.r.InfraError = s.name + ": Close() did not return"
+	case <-time.After(60 * time.Second):
+		e.blocked(s.name + ": Close() did not return")
 		return
 	}
-	s.p.waitWire(3, 20*time.Second)
+	s.p.waitWire(3, 60*time.Second)
 	evs := s.ctl.Events()
 	uasc.VerifSetHook(nil)
 	e.r.Hit("scenario:forced-close-during-renewal")
@@ -927,7 +927,7 @@ func (e *env) secureClient(seed uint64, idx int, mode ua.MessageSecurityMode) {
 	select {
 	case <-done:
 	case <-time.After(90 * time.Second):
-		e.r.InfraError = name + ": senders did not finish"
+		e.blocked(name + ": senders did not finish")
 		return
 	}
 	// wait until the server has read everything that was written
@@ -1029,19 +1029,19 @@ func (e *env) secureClient(seed uint64, idx int, mode ua.MessageSecurityMode) {
 // forcedAbortMid: the context of a three-chunk request ends after its second chunk: the message stays
 // unfinished, the numbers drawn so far are all on the wire and the next message continues them.
 func (e *env) forcedAbortMid() {
-	s := e.open("forced-abort-mid-message", 700, 20*time.Second, false, nil)
+	s := e.open("forced-abort-mid-message", 700, 60*time.Second, false, nil)
 	if s == nil {
 		return
 	}
 	defer s.stop()
-	s.sc.SendRequestWithTimeout(context.Background(), small(1), nil, 20*time.Second, nil)
+	s.sc.SendRequestWithTimeout(context.Background(), small(1), nil, 60*time.Second, nil)
 	hold := s.ctl.BlockAt(func(ev *h.SendEv) bool { return ev.Name == "send.chunk" && ev.Int(2) == 1 })
 	ctx, cancel := context.WithCancel(context.Background())
 	defer cancel()
 	done := make(chan error, 1)
-	go func() { done <- s.sc.SendRequestWithTimeout(ctx, bigReq(3, 2), nil, 20*time.Second, nil) }()
-	if hold.WaitReached(20*time.Second) == nil {
-		e.r.InfraError = s.name + ": sender did not reach its second chunk"
+	go func() { done <- s.sc.SendRequestWithTimeout(ctx, bigReq(3, 2), nil, 60*time.Second, nil) }()
+	if hold.WaitReached(60*time.Second) == nil {
+		e.blocked(s.name + ": sender did not reach its second chunk")
 		return
 	}
 	cancel()
@@ -1051,12 +1051,12 @@ func (e *env) forcedAbortMid() {
 		if err == nil {
 			e.r.Notes = append(e.r.Notes, s.name+": the request was sent completely although its context ended")
 		}
-	case <-time.After(20 * time.Second):
-		e.r.InfraError = s.name + ": sender did not return"
+	case <-time.After(60 * time.Second):
+		e.blocked(s.name + ": sender did not return")
 		return
 	}
-	s.sc.SendRequestWithTimeout(context.Background(), small(3), nil, 20*time.Second, nil)
-	s.p.waitWire(4, 20*time.Second)
+	s.sc.SendRequestWithTimeout(context.Background(), small(3), nil, 60*time.Second, nil)
+	s.p.waitWire(4, 60*time.Second)
 	evs := s.ctl.Events()
 	uasc.VerifSetHook(nil)
 	e.r.Hit("scenario:forced-abort-mid-message")
@@ -1105,6 +1105,27 @@ func (e *env) corpus() {
 	}
 }
 
+// blocked records that the implementation did not get to a point it has to reach (or did something it must
+// not do) within the generous time allowed: the scenario is the failing input. Only trouble that says nothing
+// about the library (sockets, keys, the driver, a machine too slow for a timing verdict) is reported as infra.
+func (e *env) blocked(what string) {
+	e.r.Fail(what, "", "the implementation did not complete this step (it blocks, or the step got lost): "+what)
+}
+
+// hasNew: an unclassified oracle failure or a model disagreement has been recorded — the verdict of the run is
+// settled, the remaining (real-time) scenarios are skipped so that the failing input is reported quickly.
+func (e *env) hasNew() bool {
+	if len(e.r.Disagreements) > 0 {
+		return true
+	}
+	for _, f := range e.r.OracleFailures {
+		if f.Sig == "" {
+			return true
+		}
+	}
+	return false
+}
+
 func main() {
 	o := h.ParseOpts()
 	r := h.NewResult("C11", o)
@@ -1145,24 +1166,24 @@ func main() {
 		return
 	}
 	e.forcedStale()
-	if r.InfraError == "" {
+	if r.InfraError == "" && !e.hasNew() {
 		e.forcedFailedRenewal()
 	}
-	if r.InfraError == "" {
+	if r.InfraError == "" && !e.hasNew() {
 		e.forcedAbort()
 	}
-	if r.InfraError == "" {
+	if r.InfraError == "" && !e.hasNew() {
 		e.forcedAbortMid()
 	}
-	if r.InfraError == "" {
+	if r.InfraError == "" && !e.hasNew() {
 		e.forcedOverlap()
 	}
-	if r.InfraError == "" {
+	if r.InfraError == "" && !e.hasNew() {
 		e.forcedClose()
 	}
 	t0 := time.Now()
 	n := o.N(120, 3000)
-	for i := 0; i < n && r.InfraError == ""; i++ {
+	for i := 0; i < n && r.InfraError == "" && !e.hasNew(); i++ {
 		if i%3 == 2 {
 			e.serverFixed(o.Seed, i)
 		} else {
@@ -1175,7 +1196,7 @@ func main() {
 	}
 	// non-None modes: the same client scenario against a real server channel
 	nSec := o.N(4, 120)
-	for i := 0; i < nSec && r.InfraError == ""; i++ {
+	for i := 0; i < nSec && r.InfraError == "" && !e.hasNew(); i++ {
 		mode := ua.MessageSecurityModeSign
 		if i%2 == 1 {
 			mode = ua.MessageSecurityModeSignAndEncrypt
